@@ -12,6 +12,8 @@ const P: &str = "C08";
 enum Kind {
     /// from_registry / setup: observed identity (instance index) if known
     Lookup { res: Option<usize>, known: bool },
+    /// a lookup that was dropped before it returned: it may have taken effect (in full) at any later moment, or not at all
+    CancelledLookup,
     /// `prev` = identity of the returned previous entry when it could be learnt (it answered a call)
     Register { x: usize, ok: bool, prev_some: bool },
     Replace { x: usize, prev_some: bool, prev: Option<usize> },
@@ -70,6 +72,18 @@ impl<'a> Search<'a> {
                         continue;
                     }
                     out.push(St { reg: Some(*idx as u8), consumed: st.consumed | (1 << *idx), ..st });
+                }
+            }
+            Kind::CancelledLookup => {
+                out.push(st);
+                let live = st.reg.map(alive).unwrap_or(false);
+                if !live {
+                    for (idx, spawn) in self.defaults {
+                        if st.consumed & (1 << *idx) != 0 || *spawn < op.b {
+                            continue;
+                        }
+                        out.push(St { reg: Some(*idx as u8), consumed: st.consumed | (1 << *idx), ..st });
+                    }
                 }
             }
             Kind::Register { x, ok, prev_some } => {
@@ -215,6 +229,11 @@ pub fn check(cx: &Cx, rep: &mut Report) {
                 pending = true;
                 continue;
             };
+            if o.op == OpK::FromRegistry && matches!(o.res, Some(Res::Cancelled)) {
+                ops.push(HOp { b: o.b, e: u64::MAX, k: Kind::CancelledLookup, desc: format!("c{}#{} FromRegistry dropped at #{e}", o.c, o.i) });
+                rep.premise("C08.ops.cancelled_lookup");
+                continue;
+            }
             let desc = format!("c{}#{} {:?} -> {:?}", o.c, o.i, o.op, o.res);
             let kind = match (&o.op, &o.res) {
                 (OpK::FromRegistry, Some(Res::Handle { slot, some: true })) => {
@@ -308,6 +327,7 @@ pub fn check(cx: &Cx, rep: &mut Report) {
         for o in &ops {
             let key: &'static str = match o.k {
                 Kind::Lookup { .. } => "C08.ops.lookup",
+                Kind::CancelledLookup => "C08.ops.cancelled_lookup_in_history",
                 Kind::Register { ok: true, .. } => "C08.ops.register_ok",
                 Kind::Register { ok: false, .. } => "C08.ops.register_refused",
                 Kind::Replace { .. } => "C08.ops.replace",
